@@ -43,6 +43,9 @@ def build_pool(seed, n):
     extra = ["x = p'/a' / pf'{b}'\n", "f!(a, b)\nwith! c:\n    d e\nx = 1\n", "$(echo! a b)\ny = 2\n", "x = f'{a!r:>{w}}' 'tail'\n", "range?\n", "f!(]\n", "with! x:\n", "f!(a,, b)\n",
              "$[echo!]\n", "x = $(timeit!)\nz = 1\n", "f!()\n", "f!(x)g!(y))\n", "f!(a, (b)\n", "with! q: \n", "$(echo a.b?)\n", "$(lx?).split()\n", "x = [$(ax?) for a in $PATH]\n", "r = !(ls??)\n", "x = 'a' b'b'\n", "if a:\n  b\n c\n", "x = (\n", "x = '''a\n", "é = 'ü'\n", "try:\n    pass\nexcept* A:\n    pass\n", "type X[T] = list[T]\n"]
     pool += extra
+    # outcomes that need the source lines again after the tokens are read (debug text, error text over token-less lines, byte columns)
+    pool += ["x = f'{a = }'\n", "x = f\"\"\"{a =\n}\"\"\"\n", "f(a\n\n  b)\n", "\u00e9 = $HOME + '\u00fc'\n", "g!(a,\n \u00e9\u00e9\n)\n", "x = (1,\n# c\n\n 2 3)\n", "with! c:\n    a\n\n    b\n",
+             "match!(a, b c)\n", "match !(x) + f(y)\n", "match!(a, @(x + y))\nassert w, 'm'\n", "f!(a,)\ng!(x)\n"]
     # literal families that share tokenizer/parser lookup keys (quote style, prefix letters) but differ in the other dimensions:
     # any module-level cache keyed too coarsely makes their outcome depend on which one was seen first
     bodies = ["\\N{BULLET}{a}", "{a}\\d+", "a{{b}}{c}", "{a:>{w}}", "\\n{a!r}", "{a}", "\\N{z}"]
@@ -125,6 +128,20 @@ HASHSEED_ITEMS = ["import a\u00b2 as b\u00b3\n", "from m\u00b2 import a\u00b9 as
                   "x = 1 1\ny = 2 2\n", "def f(a, a\u00b2, *, a): pass\n", "import \u00e9.\u00b2 as \u00b3, \u00fc\u00b9\n", "nonlocal x\u00b2, y\u00b3\n", "x.a\u00b2.b\u00b3 = y.c\u00b9.d\u00bd\n", "\uff41 = \ufb01 + \u00b5\u00b2\n"]
 
 
+# the same under a lowered py_version (several version notes are made; which one is reported must not depend on the seed)
+VERSION_MARK = "\x00py_version=(3, 10)"
+HASHSEED_VERSIONED = ["type X[T] = int\n", "class A[T]: pass\ntype X = int\n", "def f[T](): pass\ntype Y = T\ntry:\n    pass\nexcept* E:\n    pass\n", "try:\n    pass\nexcept* E:\n    type Z[T] = T\n",
+                      "type X = int\nmatch!(a, b)\n", "class A[T]:\n    def m[U](self): pass\n    type V = U\n"]
+
+
+def versioned_sig(s):
+    """(signature, brief) of one input; an input ending in VERSION_MARK is parsed under py_version (3, 10)"""
+    if s.endswith(VERSION_MARK):
+        out = base.at_depth(lambda: base.guarded(monitored_class().parse_string, s[: -len(VERSION_MARK)], mode="exec", py_version=(3, 10)))
+        return [base.h64(out.sig()), out.brief()]
+    return list(sig_of(s)[:2])
+
+
 def hashseed_shard(acc, pool, refs, seeds):
     """the same inputs in fresh interpreters started with other string-hash seeds (set and dict iteration order, str hashes)"""
     import json
@@ -132,10 +149,10 @@ def hashseed_shard(acc, pool, refs, seeds):
 
     from .. import pool as poolmod
 
-    items = HASHSEED_ITEMS + pool[:: max(1, len(pool) // 250)]
+    items = HASHSEED_ITEMS + [s + VERSION_MARK for s in HASHSEED_VERSIONED] + pool[:: max(1, len(pool) // 250)]
     want = {s: r for s, r in zip(pool, refs)}
     code = ("import sys, json\nfrom xv.checks import c13\nc13.worker_init()\n"
-            "print(json.dumps([c13.sig_of(s)[:2] for s in json.load(sys.stdin)]))\n")
+            "print(json.dumps([c13.versioned_sig(s) for s in json.load(sys.stdin)]))\n")
     results = {}
     for hs in seeds:
         p = subprocess.run([base.PY, "-c", code], input=json.dumps(items).encode(), capture_output=True, timeout=900, cwd=base.VERIF, env=poolmod.worker_env({"PYTHONHASHSEED": str(hs)}))
